@@ -38,7 +38,7 @@ func init() {
 		FloorQuick: 10_000, FloorThorough: 300_000,
 		Assumptions: []string{
 			"programs calling a pass-through function whose name is a reserved word of the SQL mini-grammar or not a plain identifier are skipped and counted (whether the engine knows a function is outside every property)",
-			"programs whose `as` names collide with each other, with a table name or with the __subquery prefix are skipped and counted (DESIGN.md section 7)",
+			"programs whose `as` names collide with each other, with a table name or with the __subquery prefix are judged on the lexical and syntactic rules only; the wiring rules (which definition a read means, unused definitions, unique names) are skipped for them and counted (DESIGN.md section 7)",
 		},
 	})
 }
@@ -75,6 +75,11 @@ func generate(w *mon.W) {
 				}
 			}
 		}
+	}
+	// results named alike, like a table or like a generated name, with every
+	// operator between and after them (only the shape of the statement is judged)
+	for _, src := range gen.NameCollisionSources() {
+		do(src, nil)
 	}
 	// every spelling of a signed let value under every signed / indexed use
 	{
@@ -237,11 +242,14 @@ func Check(c *Case, r *mon.R, shapes map[string]bool) bool {
 			return false
 		}
 	}
+	// results named alike, like their own input or like a generated name: which
+	// definition a later read means is not judged (the wiring rules below); that the
+	// output is one well-formed statement is
+	collision := false
 	seen := map[string]bool{}
 	for _, a := range asNames {
 		if selfNamed || seen[a] || strings.HasPrefix(a, "__subquery") {
-			r.Inconclusive("skipped_as_name_collision")
-			return false
+			collision = true
 		}
 		seen[a] = true
 	}
@@ -290,6 +298,11 @@ func Check(c *Case, r *mon.R, shapes map[string]bool) bool {
 	st, serr := sqlmini.Parse(sql)
 	if serr != nil {
 		return bad("which does not parse as [WITH …] SELECT …: %v", serr)
+	}
+	if collision {
+		r.Count("well_formed_with_name_collision", 1)
+		r.Inconclusive("skipped_as_name_collision")
+		return false
 	}
 	// wiring
 	defined := map[string]int{}
